@@ -132,6 +132,13 @@ HAND = [
     ('init-qual-bad', 'const int *q; void f(void) { int *r = q; }\n', 'reject', None),
     ('ret-ptr-bad', 'long *q; int *f(void) { return q; }\n', 'reject', None),
     ('arg-ptr-bad', 'long *q; void g(int *); void f(void) { g(q); }\n', 'reject', None),
+    # enumeration constants keep type int whenever every enumerator fits in int (boundaries of the underlying-type choice)
+    ('enum-const-intmax', 'enum A { a0, a1 = 0x7fffffff }; enum B { b0 = 0x7ffffffe }; enum C { c0 = -1, c1 = 0x7fffffff }; enum D { d0 = -0x7fffffff - 1 };\n'
+                          'int ka = _Generic(a1, int: 1, unsigned: 2, long: 3, unsigned long: 4, default: 9), kb = _Generic(b0, int: 1, unsigned: 2, default: 9),\n'
+                          '    kc = _Generic(c1, int: 1, unsigned: 2, default: 9), kd = _Generic(d0, int: 1, unsigned: 2, long: 3, default: 9),\n'
+                          '    na = a0 - 1 < 0, nb = b0 - 0x7fffffff < 0, ta = __builtin_types_compatible_p(enum A, unsigned), tc = __builtin_types_compatible_p(enum C, int),\n'
+                          '    sa = sizeof(enum A), sd = sizeof(d0);\n',
+     {'ka': 1, 'kb': 1, 'kc': 1, 'kd': 1, 'na': 1, 'nb': 1, 'ta': 1, 'tc': 1, 'sa': 4, 'sd': 4}, None),
     ('sizeof-plus-bitfield', 'struct S { int f : 7; } s; int a = sizeof(+s.f);\n', {'a': 4}, 'sizeof-unary-plus-bitfield'),
     ('suffix-lL', 'long long k = 1lL;\n', 'reject', 'int-suffix-lL'),
     ('suffix-bad', 'int k = 1uu;\n', 'reject', None),
